@@ -31,6 +31,10 @@ def gen_id(R, k):
     x = R.random()
     if x < 0.3:
         return 'ev%d' % k
+    if x < 0.42:
+        # ids that other software reads as something else than text
+        return R.choice(('NA', 'N/A', 'null', 'NULL', 'None', 'nan', 'NaN', 'inf', 'true', 'False', '0', '007', '1e5', '-',
+                         'n/a', '#N/A', '<NA>', '1.0', '-1', '0x1f'))
     n = R.randint(1, 12)
     s = ''.join(R.choice(ID_ALPHABET) for _ in range(n))
     if not s.strip():
@@ -104,16 +108,19 @@ def generate(R, tier, focus):
                         'to_us': R.randint(MS_1900, MS_2200) * 1000 + R.choice((0, 0, 1, 999999, R.randint(0, 999999)))})
         elif x < 0.25:
             ops.append({'op': 'TZ_SWITCH', 'tz': R.choice(TZ_CHOICES)})
-        elif x < 0.4 and twin is not None:
+        elif x < 0.32 and twin is not None:
             # a catalog on a look-alike region (same spacing, cell count and extent, other cells) goes through dict / JSON
             ops.append({'op': 'TWIN', 'fmt': R.choice(('dict', 'json')), 'n': R.randint(0, 3)})
-        elif x < 0.35:
+        elif x < 0.42:
             # the live catalog object is changed in place between round trips (optionally after its dict form was built)
             ci = R.randrange(len(cats))
             how = 'spatial' if (cats[ci]['mixed'] or cats[ci]['with_region']) and R.random() < 0.6 else 'filter'
             thr = R.choice([e[5] for e in cats[ci]['events']] or [5.0])
             ops.append({'op': 'MUTATE', 'cat': ci, 'how': how, 'stmt': 'magnitude %s %r' % (R.choice(('>=', '<', '>')), thr),
                         'warm': R.choice(('none', 'to_dict', 'write_json', 'to_dataframe'))})
+        elif x < 0.47:
+            # another component of the same process reads a file of its own format through the loader= argument
+            ops.append({'op': 'CUSTOM_LOADER', 'n': R.randint(0, 3), 'type': R.choice(('csep-csv', 'csep-csv', 'zmap', None))})
         elif x < 0.85:
             chain = [R.choice(FORMATS)]
             while R.random() < 0.35 and len(chain) < 3:
@@ -169,7 +176,7 @@ def generate18(R, tier):
     return {'engine': 'persistsim', 'kind': 'C18', 'sub': sub, 'inner': inner, 'region18': region, 'twin18': twin18,
             'mags18': gen.gen_mags(R), 'backup': R.random() < 0.3, 'calibration': R.random() < 0.4,
             'probe_seed': R.randint(0, 10 ** 9), 'tz': R.choice(TZ_CHOICES), 'clock_us': R.randint(0, 4 * 10 ** 15),
-            'same_instant': R.random() < 0.5}
+            'same_instant': R.random() < 0.5, 'scribble': R.random() < 0.2}
 
 
 # --------------------------------------------------------------------------- execution
@@ -275,6 +282,25 @@ def _execute14(scn, ctx, store, clock):
             if not hexf([list(x) for x in rows_of(c)]) == hexf([list(x) for x in model_rows(cur_events[ci])]):
                 ctx.count('mutate_mismatch')                   # C04's business; this object is no longer used
                 del live[ci]
+            continue
+        if kind == 'CUSTOM_LOADER':
+            own = [('own%d' % k, 1000 * k, 1.0 + k, 2.0 + k, 3.0, 4.0 + k) for k in range(op['n'])]
+
+            def own_reader(filename, **kw):
+                return list(own)
+            n_files += 1
+            pth = store.path('own_%d.txt' % n_files)
+            with open(pth, 'w') as f:
+                f.write('own format\n')
+            kw = {'loader': own_reader}
+            if op.get('type'):
+                kw['type'] = op['type']
+            r = call(csep.load_catalog, pth, **kw)
+            ctx.count('fire:other_component_custom_loader')
+            if r[0] != 'ok':
+                ctx.count('custom_loader_exception:' + r[1])
+            elif [x[0] for x in rows_of(r[1])] != [x[0].encode() for x in own]:
+                ctx.count('custom_loader_other_content')
             continue
         if kind == 'TWIN':
             tw = scn.get('region_twin')
@@ -699,6 +725,12 @@ def _execute18(scn, ctx, store, clock):
     a = ra_[1]
     if reg_lit.get('odd'):
         ctx.count('rare:lattice_with_non_decimal_anchor')
+    if scn.get('scribble'):
+        # the caller computes cell centres in place on the arrays the region handed out (they are the caller's arrays)
+        ctx.count('fire:caller_modifies_returned_origins_in_place')
+        rs_ = call(lambda: a.origins())
+        if rs_[0] == 'ok' and isinstance(rs_[1], numpy.ndarray) and rs_[1].flags.writeable:
+            rs_[1][...] += reg_lit['dh'] / 2
     r = call(lambda: CartesianGrid2D.from_dict(a.to_dict()))
     if r[0] != 'ok':
         ctx.violate('C18', 'region', 'from_dict:%s' % r[1], {'msg': r[2]})
